@@ -29,6 +29,15 @@ def _ctor_sizing(prog, c, cls, field, depth=0):
             if e['k'] == 'CXXConstructExpr':
                 args = e.get('args', [])
                 real = [a for a in args if c.nodes[c.strip(a, 'all')]['k'] != 'CXXDefaultArgExpr']
+                if len(real) == 1 and e['callee'].get('class', '').startswith('std::vector'):
+                    # a braced list of K elements:  _data({a, b, c, d})
+                    il = c.nodes[c.strip(real[0], 'noop')]
+                    hops = 0
+                    while il['k'] in ('CXXStdInitializerListExpr', 'MaterializeTemporaryExpr', 'ExprWithCleanups', 'CXXBindTemporaryExpr', 'ImplicitCastExpr') and il['ch'] and hops < 6:
+                        il = c.nodes[il['ch'][0]]
+                        hops += 1
+                    if il['k'] == 'InitListExpr' and hops:
+                        return ('const', len(il['ch']))
                 if len(real) in (1, 2):
                     a0 = c.nodes[c.strip(real[0], 'all')]
                     a0n = c.nodes[c.strip(real[0], 'noop')]
@@ -491,6 +500,8 @@ class Checker:
     def __init__(self, prog, res, rule, fn, items, prefix):
         self.prog, self.res, self.rule, self.fn, self.prefix = prog, res, rule, fn, prefix
         self.items = io_only(items)
+        # calls that involve the medium but in which the extractor saw no I/O (a recursion it does not unfold, a callable handed down)
+        self.hidden_calls = [it[1].name for it in items if it[0] == 'call' and not it[3]]
         self.i = 0
         self.failed = False
 
@@ -522,6 +533,13 @@ class Checker:
         # "expected X, found Y" where Y contains I/O the extractor cannot tabulate (an unknown buffer,
         # an uncounted loop, ...) is an unknown idiom, not a demonstrated mismatch
         global _LAST
+        nx_ = self.peek()
+        if 'end of sequence' in detail and nx_ is not None and nx_[0] == 'call':
+            _LAST = None
+            return self.shape(slot, where, detail.replace('end of sequence', 'a call of %s' % nx_[1].name) + ' (the field is emitted through another function of the writer family)')
+        if 'end of sequence' in detail and getattr(self, 'hidden_calls', None):
+            _LAST = None
+            return self.shape(slot, where, detail + ' (the sequence calls %s, in which the extractor sees no I/O of its own)' % ', '.join(self.hidden_calls))
         if _LAST is not None and _LAST[0] in detail and not recognisable(_LAST[1]):
             _LAST = None
             return self.unknown(slot, where, detail + ' [contains I/O in a form the extractor does not tabulate]')
@@ -1281,6 +1299,7 @@ def type_byte_rule(prog, res, rule, f):
     """type byte -> _data_type is the identity on {-1,1,2,4}; anything else is refused with
     std::ios_base::failure (finite enumeration of the byte's meaning)"""
     from facts import eval_bool
+    import a7
     R = Renderer(f)
     g = f.events()
     # find the local that receives the type byte
@@ -1329,6 +1348,7 @@ def type_byte_rule(prog, res, rule, f):
                       function=f.sig, expr='parameter.type.map')
         return
     bad = []
+    unread_map = []
     for tv in (-1, 1, 2, 4, 0, 3, -2, 8, 127, -128):
         def atom(i, tv=tv):
             n = f.nodes[i]
@@ -1337,11 +1357,19 @@ def type_byte_rule(prog, res, rule, f):
                 for a, b in ((l, r), (r, l)):
                     if a == var and re.match(r'^-?\d+$', b):
                         return (tv == int(b)) if n['op'] == '==' else (tv != int(b))
+            # anything else that only depends on the type byte: evaluated on a one-variable model
+            try:
+                val_ = a7.Evaluator(f, {var: tv, '#fields': True}).ev(i)
+            except Exception:
+                val_ = None
+            if isinstance(val_, bool):
+                return val_
             return None
         # walk from the read until _data_type is assigned or a throw is met
         seen = set()
         st = [start]
         outcome = set()
+        undecided_branch = False
         while st:
             v = st.pop()
             if v in seen or isinstance(v, str):
@@ -1354,7 +1382,15 @@ def type_byte_rule(prog, res, rule, f):
                     outcome.add('throw:' + str(n.get('throw_t')))
                     continue
                 if n['k'] == 'BinaryOperator' and n['op'] == '=' and R.render(n['ch'][0]) == 'this._data_type':
-                    outcome.add('type:' + R.render(n['ch'][1]))
+                    rv_ = R.render(n['ch'][1])
+                    if not re.match(r'^-?\d+$', rv_):
+                        try:
+                            ev_ = a7.Evaluator(f, {var: tv, '#fields': True}).ev(n['ch'][1])
+                        except Exception:
+                            ev_ = None
+                        if isinstance(ev_, int) and not isinstance(ev_, bool):
+                            rv_ = str(ev_)
+                    outcome.add('type:' + rv_)
                     continue
                 # stop at the next read (dimension count)
                 if n['k'] == 'CXXMemberCallExpr' and n['callee']['name'] in codec.READERS and v != start:
@@ -1367,14 +1403,21 @@ def type_byte_rule(prog, res, rule, f):
                 elif val is False:
                     st.extend(g.branch[v]['targets'][1])
                 else:
+                    undecided_branch = True
                     st.extend(g.branch[v]['targets'][0] + g.branch[v]['targets'][1])
             else:
                 st.extend(s for s in g.succ.get(v, []) if not (isinstance(s, tuple) and g.blocks[s[0]].get('labelk') == 'CXXCatchStmt' and s[1] == 0))
         want = {'type:%d' % tv} if tv in (-1, 1, 2, 4) else {'throw:std::ios_base::failure'}
         if outcome != want:
-            bad.append('type byte %d -> %s (specified %s)' % (tv, sorted(outcome), sorted(want)))
+            if undecided_branch or any(o_.startswith('type:') and not re.match(r'^type:-?\d+$', o_) for o_ in outcome):
+                unread_map.append('type byte %d -> %s' % (tv, sorted(outcome)))
+            else:
+                bad.append('type byte %d -> %s (specified %s)' % (tv, sorted(outcome), sorted(want)))
     if bad:
-        res.viol(rule, 'parameter.type.map', f.loc(), '; '.join(bad[:3]), function=f.sig, expr='parameter.type.map')
+        res.viol(rule, 'parameter.type.map', f.loc(), '; '.join(bad[:3]), function=f.sig, expr='parameter.type.map', sure=True)
+    elif unread_map:
+        res.undecided(rule, 'parameter.type.map', f.loc(), 'the mapping of the type byte goes through tests / values the rule does not evaluate (%s) [shape not read by the rule]' % unread_map[0],
+                      function=f.sig, expr='parameter.type.map')
     else:
         res.ok(rule, 'parameter.type.map', f.loc(), 'identity on {-1,1,2,4}, std::ios_base::failure otherwise (10 byte values enumerated)', function=f.sig, expr='parameter.type.map')
 
@@ -2528,6 +2571,16 @@ def copy_completeness_rule(prog, res, rule='copy-complete'):
                                (re.escape(src), re.escape(src), K, re.escape(src), K, re.escape(src)), g0)):
                 res.ok(rule, short, f.loc(), 'constructed from the source\'s %d components [begin, begin + %d)' % (K, K), function=f.sig, expr=fl['name'])
                 continue
+            mb = re.match(r'^std::vector<[^{]*\{+([^{}]*)\}+(?:,default)?\}$', g0) if K else None
+            if mb:
+                # a braced list of the source's components, in order:  _data({p.x(), p.y(), p.z(), p.residual()})
+                els = [re.sub(r'^\((float|double|int|unsignedlong)\)', '', e_) for e_ in mb.group(1).split(',')]
+                if els == ['%s[%d]' % (src, k) for k in range(K)]:
+                    res.ok(rule, short, f.loc(), 'constructed from the braced list of the source\'s %d components, in order' % K, function=f.sig, expr=fl['name'])
+                    continue
+                if len(els) == K and all(re.match(r'^%s\[\d+\]$' % re.escape(src), e_) for e_ in els):
+                    res.viol(rule, short, f.loc(), 'the braced list takes the source\'s components in the order %s' % els, function=f.sig, expr=fl['name'], sure=True)
+                    continue
             if K:
                 # std::copy_n(src.begin(), K, dst.begin()) / std::copy(src.begin(), src.end() | src.begin() + K, dst.begin())
                 whole = False
@@ -2568,25 +2621,31 @@ def copy_completeness_rule(prog, res, rule='copy-complete'):
 # loading order, label binding
 
 def load_order_rule(prog, res, rule='load-order'):
-    f = prog.fn('ezc3d::c3d::c3d', nparams=1)
-    g = f.events()
-    pv = uv = dv = hv = None
-    for n in f.nodes:
-        built = None
-        if n['k'] == 'CXXConstructExpr' and n['callee']['nparams'] == 1:
-            built = n['callee'].get('class')
-        elif n['k'] == 'CallExpr' and 'callee' in n:
-            mk = prog.makes(f, n)
-            if mk and mk['nparams'] == 1:
-                built = mk['class']
-        if built == 'ezc3d::ParametersNS::Parameters':
-            pv = g.vertex_of.get(n['id'])
-        if built == 'ezc3d::DataNS::Data':
-            dv = g.vertex_of.get(n['id'])
-        if built == 'ezc3d::Header':
-            hv = g.vertex_of.get(n['id'])
-        if n['k'] == 'CXXMemberCallExpr' and n['callee']['qname'] == 'ezc3d::c3d::updateHeader':
-            uv = g.vertex_of.get(n['id'])
+    f0 = prog.fn('ezc3d::c3d::c3d', nparams=1)
+    # the constructor itself, or the one member of c3d it hands the reading to
+    cands = [f0] + [prog.funcs[c['callee']['usr']] for c in f0.calls() if c['callee'].get('usr') in prog.funcs and prog.funcs[c['callee']['usr']].cls == 'ezc3d::c3d' and
+                    prog.funcs[c['callee']['usr']].body is not None and c['k'] == 'CXXMemberCallExpr']
+    for f in cands:
+        g = f.events()
+        pv = uv = dv = hv = None
+        for n in f.nodes:
+            built = None
+            if n['k'] == 'CXXConstructExpr' and n['callee']['nparams'] == 1:
+                built = n['callee'].get('class')
+            elif n['k'] == 'CallExpr' and 'callee' in n:
+                mk = prog.makes(f, n)
+                if mk and mk['nparams'] == 1:
+                    built = mk['class']
+            if built == 'ezc3d::ParametersNS::Parameters':
+                pv = g.vertex_of.get(n['id'])
+            if built == 'ezc3d::DataNS::Data':
+                dv = g.vertex_of.get(n['id'])
+            if built == 'ezc3d::Header':
+                hv = g.vertex_of.get(n['id'])
+            if n['k'] == 'CXXMemberCallExpr' and n['callee']['qname'] == 'ezc3d::c3d::updateHeader':
+                uv = g.vertex_of.get(n['id'])
+        if None not in (pv, dv, hv):
+            break
     if None in (pv, dv, hv):
         raise AnalysisBroken('loading constructor no longer builds header/parameters/data from the file')
     ok = uv is not None and g.dominates(hv, pv) and g.dominates(pv, uv) and g.dominates(uv, dv)
@@ -2952,6 +3011,10 @@ def truncating_write_rule(prog, res, rule='truncating-write'):
             # (3d) BYTE elements: the type constant 1 is only ever stored by the reader, which fills the values with 1-byte reads
             if m and m.group(1) == '_param_data_int' and wc == 1 and byte_only_from_reader(prog):
                 res.ok(rule, inst, d['where'], 'BYTE-typed parameters only originate from the reader (1-byte signed reads); every setter re-types the parameter', function=f.sig, expr=key)
+                continue
+            if m and m.group(1) == '_param_data_int' and wc == 1 and byte_only_from_reader(prog) is None:
+                res.undecided(rule, inst, d['where'], 'whether BYTE-typed parameters only originate from the reader cannot be read: the reader stores the element type in a form the rule does not evaluate '
+                              '[shape not read by the rule]', function=f.sig, expr=key)
                 continue
             # (4) a dominating range guard
             atom = None
@@ -3329,7 +3392,9 @@ def string_len_bounded(prog, cls, poly):
 
 
 def byte_only_from_reader(prog):
+    """True / False / None (the reader stores a type the rule cannot read as a constant)"""
     P_ = 'ezc3d::ParametersNS::GroupNS::Parameter'
+    unread = False
     for f, nid, rhs in _c18.field_writes(prog, P_, '_data_type'):
         if rhs is None:
             return False
@@ -3345,6 +3410,10 @@ def byte_only_from_reader(prog):
                 continue
         if v is None:
             if not f.implicit:
+                # a type the rule cannot read as a constant: in the reader (a table of types, a helper) nothing is shown either way
+                if f.qname == P_ + '::read':
+                    unread = True
+                    continue
                 return False
             continue
         if int(v) == 1 and f.qname != P_ + '::read':
@@ -3356,7 +3425,7 @@ def byte_only_from_reader(prog):
         tw = [h.nodes[h.strip(r, 'all')].get('cv') for h, _, r in _c18.field_writes(prog, P_, '_data_type') if h is f and r is not None]
         if not tw or any(t is None or int(t) == 1 for t in tw):
             return False
-    return True
+    return None if unread else True
 
 
 def reader_effects_rule(prog, res, rule='reader-effects'):
